@@ -29,3 +29,18 @@ func (l *VerifDSMLog) LogVote(m *VoteMessage) []module.DoubleSignData {
 func (l *VerifDSMLog) LogProposal(m *ProposalMessage) []module.DoubleSignData {
 	return l.l.LogAndCheckProposalMessage(m)
 }
+
+// VerifC06SetNTS attaches NTS vote bases and proof parts to a vote. They are
+// outside the signed payload (blockVoteBase + Timestamp), so the signature of
+// the vote stays valid.
+func VerifC06SetNTS(m *VoteMessage, entries []module.NTSHashEntryFormat, proofParts [][]byte) {
+	m.NTSVoteBases = nil
+	for _, e := range entries {
+		m.NTSVoteBases = append(m.NTSVoteBases, ntsVoteBase(e))
+	}
+	m.NTSDProofParts = proofParts
+	m.decisionDigest = nil
+}
+
+// VerifC06SignedBytes is the payload the vote signature covers.
+func VerifC06SignedBytes(m *VoteMessage) []byte { return m._byteser.bytes() }
